@@ -916,6 +916,11 @@ class LoopSpec:
         self.label = label
 
 
+def _inv3(items):
+    """invariant items are (label, formula) or (label, formula, oblige-options)"""
+    return [(it[0], it[1], it[2] if len(it) > 2 else {}) for it in items]
+
+
 def assigned_names(stmts):
     out = []
 
@@ -1258,8 +1263,8 @@ class Interp:
         label = spec.label or "L%d" % st.lineno
         n = rng.count(ctx)          # Sym/int number of iterations (>= 0)
         # 1. invariant holds on entry
-        for lab, f in spec.inv(ctx, env, 0):
-            ctx.oblige("inv-init", "%s.%s" % (label, lab), f)
+        for lab, f, iopts in _inv3(spec.inv(ctx, env, 0)):
+            ctx.oblige("inv-init", "%s.%s" % (label, lab), f, **iopts)
         mode = ctx.choice(2, "loop")
         body_names = assigned_names(st.body) + assigned_names([ast.Assign(targets=[st.target], value=ast.Constant(0))])
         self.havoc_locals(env, body_names, spec)
@@ -1272,7 +1277,7 @@ class Interp:
             if spec.facts:
                 for f in spec.facts(ctx, env, k):
                     ctx.assume(f)
-            for lab, f in spec.inv(ctx, env, k):
+            for lab, f, iopts in _inv3(spec.inv(ctx, env, k)):
                 ctx.assume(f)
             self.assign(st.target, rng.item(k), env)
             if spec.before_body:
@@ -1290,14 +1295,14 @@ class Interp:
             allowed = spec.modifies(ctx, env) if spec.modifies else []
             ctx.oblige("frame", "%s.body_writes_only_declared_objects" % label,
                        not frame_violations(fp0, heap_fingerprint(env), allowed))
-            for lab, f in spec.inv(ctx, env, k + 1):
-                ctx.oblige("inv-preserve", "%s.%s" % (label, lab), f)
+            for lab, f, iopts in _inv3(spec.inv(ctx, env, k + 1)):
+                ctx.oblige("inv-preserve", "%s.%s" % (label, lab), f, **iopts)
             raise PathEnd()
         else:
             if spec.facts:
                 for f in spec.facts(ctx, env, n):
                     ctx.assume(f)
-            for lab, f in spec.inv(ctx, env, n):
+            for lab, f, iopts in _inv3(spec.inv(ctx, env, n)):
                 ctx.assume(f)
             # python leaves the loop variable at its last value (if any iteration ran)
             if isinstance(n, int) and n == 0:
@@ -1363,13 +1368,13 @@ class Interp:
             self.exec_block(st.orelse, env)
             return
         label = spec.label or "L%d" % st.lineno
-        for lab, f in spec.inv(ctx, env, None):
-            ctx.oblige("inv-init", "%s.%s" % (label, lab), f)
+        for lab, f, iopts in _inv3(spec.inv(ctx, env, None)):
+            ctx.oblige("inv-init", "%s.%s" % (label, lab), f, **iopts)
         mode = ctx.choice(2, "loop")
         self.havoc_locals(env, assigned_names(st.body), spec)
         if spec.havoc:
             spec.havoc(ctx, env)
-        for lab, f in spec.inv(ctx, env, None):
+        for lab, f, iopts in _inv3(spec.inv(ctx, env, None)):
             ctx.assume(f)
         c = self.eval(st.test, env)
         if mode == 0:
@@ -1382,8 +1387,8 @@ class Interp:
                 pass
             except _Break:
                 return
-            for lab, f in spec.inv(ctx, env, None):
-                ctx.oblige("inv-preserve", "%s.%s" % (label, lab), f)
+            for lab, f, iopts in _inv3(spec.inv(ctx, env, None)):
+                ctx.oblige("inv-preserve", "%s.%s" % (label, lab), f, **iopts)
             if v0 is not None:
                 v1 = spec.decreases(ctx, env)
                 ctx.oblige("term", "%s.variant_decreases" % label, And(v0 >= 0, v1 < v0))
@@ -1572,6 +1577,15 @@ class Interp:
         is_and = isinstance(n.op, ast.And)
         vals = []
         for i, e in enumerate(n.values):
+            if vals and any(isinstance(x, ast.Subscript) and
+                            not any(isinstance(c_, ast.Constant) and isinstance(c_.value, str) for c_ in ast.walk(x.slice))
+                            for x in ast.walk(e)):
+                # a partial operation (indexing) guarded by the earlier operands: decide them by branching, so that the
+                # operand is evaluated -- and its index obligations generated -- only where python would evaluate it
+                prev = And(*vals) if is_and else Or(*vals)
+                if self.ctx.truth(prev) != is_and:
+                    return not is_and
+                vals = []
             v = self.eval(e, env)
             last = (i == len(n.values) - 1)
             if isinstance(v, Sym) and v.is_bool:
@@ -2263,6 +2277,8 @@ def b_int(ctx, x=0, *a):
     if isinstance(x, Sym) and x.is_real and ctx.float_rounding is not None:
         x = ctx.float_rounding(ctx, x)
     if isinstance(x, PyObj):
+        if hasattr(x, 'int_'):
+            return x.int_(ctx)
         raise Undecided("int() of %s" % type(x).__name__)
     return to_int_trunc(x)
 
@@ -2595,6 +2611,7 @@ BUILTINS = {
     'hasattr': Model(b_hasattr, 'hasattr'), 'getattr': Model(b_getattr, 'getattr'),
     'dict': Model(b_dict, 'dict'), 'type': Model(b_type, 'type'), 'id': Model(b_id, 'id'),
     'map': Model(b_map, 'map'), 'reversed': Model(b_reversed, 'reversed'), 'divmod': Model(b_divmod, 'divmod'),
+    'slice': Model(lambda ctx, *a: slice(*a), 'slice'),
     'True': True, 'False': False, 'None': None,
 }
 
